@@ -144,6 +144,35 @@ def glDynmat [LT α] [DecidableRel (α := α) (· < ·)] {np ns nr nG : Nat} (T 
     (ddq0 : Fin np → Fin 3 → Fin 3 → Cx α) (factor : α) : DM np α :=
   addDD (dynmat T fcSR ms ph) (recipDD G qc dir eps born tolSq expv phG ddq0 factor) ms
 
+/-! ### the list of reciprocal vectors (`DynamicalMatrixGL._get_G_list`) -/
+
+/-- `_get_G_vec_list` index triples: `np.ndindex((2r+1,)*3) − r`, last index fastest -/
+def gIndices (r : Nat) : List (Int × Int × Int) :=
+  (List.range (2 * r + 1)).flatMap fun (a : Nat) => (List.range (2 * r + 1)).flatMap fun (b : Nat) =>
+    (List.range (2 * r + 1)).map fun (c : Nat) => (Int.ofNat a - Int.ofNat r, Int.ofNat b - Int.ofNat r, Int.ofNat c - Int.ofNat r)
+
+/-- `G = rec · n` (reciprocal lattice in column vectors) -/
+def gVec [IntCast α] (rec : T3 α) (n : Int × Int × Int) : V3 α :=
+  fun i => rec i 0 * (n.1 : α) + rec i 1 * (n.2.1 : α) + rec i 2 * (n.2.2 : α)
+
+/-- `_get_G_list(G_cutoff)` for index radius `r`: the grid points with `|G|² < G_cutoff²`, as index triples -/
+def gList [IntCast α] [LT α] [DecidableRel (α := α) (· < ·)] (rec : T3 α) (cutoffSq : α) (r : Nat) :
+    List (Int × Int × Int) :=
+  (gIndices r).filter fun n => decide (normSq (gVec rec n) < cutoffSq)
+
+/-- `_get_minimum_g_rad(G_cutoff, g_rad)`: the largest `g ≤ g_rad` such that `g · |rec·(a,b,c)| < G_cutoff` for
+one of the 26 neighbour combinations, plus one (`g_rad` itself if there is none); squared form. -/
+def minGRad [IntCast α] [LT α] [DecidableRel (α := α) (· < ·)] (rec : T3 α) (cutoffSq : α) (gRad : Nat) : Nat :=
+  let nb : List (Int × Int × Int) := (gIndices 1).filter fun n => n != (0, 0, 0)
+  let ok : Nat → Bool := fun g => nb.any fun n => decide (normSq (gVec rec n) * ((g : α) * (g : α)) < cutoffSq)
+  match ((List.range gRad).map fun k => gRad - k).find? ok with
+  | some g => g + 1
+  | none => gRad
+
+/-- certificate for a list of reciprocal vectors: `nu` pairs every vector with its negative -/
+def gListWf {nG : Nat} [BEq α] (G : Fin nG → V3 α) (nu : Fin nG → Fin nG) : Bool :=
+  (List.finRange nG).all fun g => nu (nu g) == g && (List.finRange 3).all fun i => G (nu g) i == -G g i
+
 /-! ### staged evaluators for the driver (`Props/C08` proves them equal to the model) -/
 
 /-- default element for `thaw4` (only used out of range, i.e. never) -/
